@@ -13,6 +13,8 @@ import (
 	"os"
 	"sort"
 	"strings"
+	"sync"
+	"time"
 
 	"github.com/pgavlin/dawn/internal/verif/vlib"
 	"github.com/pgavlin/dawn/internal/verif/vsched"
@@ -21,6 +23,7 @@ import (
 
 var fProp = flag.String("prop", "C04", "C04|C05|C09")
 var fOnly = flag.String("only", "", "debug: only scenarios whose description contains this")
+var fFree = flag.Int("free", 0, "race pass: run every scenario this many times on the real Go scheduler (binary built with -race and without the sync rewriting)")
 var fNoPrune = flag.Bool("noprune", false, "disable happens-before pruning (self-check of the pruning argument)")
 
 const (
@@ -105,6 +108,7 @@ func (sc *Scenario) cyclic() bool {
 // ---- harness implementation of runner.Targets / runner.Target ------------------------------
 
 type world struct {
+	mu   *sync.Mutex // free-running race pass only: guards the monitor (nil under vsched)
 	sc   *Scenario
 	mon  vsched.Obj
 	tgts []*tgt
@@ -125,6 +129,18 @@ type tgt struct {
 	i int
 }
 
+func (w *world) lock() {
+	if w.mu != nil {
+		w.mu.Lock()
+	}
+}
+
+func (w *world) unlock() {
+	if w.mu != nil {
+		w.mu.Unlock()
+	}
+}
+
 func (w *world) fail(sig, format string, a ...any) {
 	w.bad = append(w.bad, sig+"|"+fmt.Sprintf(format, a...))
 }
@@ -141,6 +157,8 @@ func (w *world) enter() {
 
 func (w *world) LoadTarget(lbl string) (runner.Target, error) {
 	vsched.Access(&w.mon, true)
+	w.lock()
+	defer w.unlock()
 	var i int
 	fmt.Sscanf(lbl, "t%d", &i)
 	w.loadCalls[i]++
@@ -162,17 +180,21 @@ func (w *world) LoadTarget(lbl string) (runner.Target, error) {
 func (t *tgt) Evaluate(e runner.Engine) error {
 	w, i := t.w, t.i
 	vsched.Access(&w.mon, true)
+	w.lock()
 	w.evalCalls[i]++
 	if w.evalCalls[i] > 1 {
 		w.fail("evaluated-twice", "Evaluate(t%d) called %d times", i, w.evalCalls[i])
 	}
 	w.order = append(w.order, "s"+label(i))
+	w.unlock()
 	finish := func(err error) error {
 		vsched.Access(&w.mon, true)
+		w.lock()
 		w.outcome[i] = err
 		w.finished[i] = true
 		w.order = append(w.order, "e"+label(i))
 		w.inside--
+		w.unlock()
 		return err
 	}
 	deps := w.sc.Deps[i]
@@ -189,12 +211,16 @@ func (t *tgt) Evaluate(e runner.Engine) error {
 			labels[k] = label(d)
 		}
 		vsched.Access(&w.mon, true)
+		w.lock()
 		w.inside--
+		w.unlock()
 		res := e.EvaluateTargets(labels...)
 		vsched.Access(&w.mon, true)
+		w.lock()
 		w.enter()
 		if len(res) != len(g) {
 			w.fail("result-count", "EvaluateTargets(%v) returned %d results", labels, len(res))
+			w.unlock()
 			continue
 		}
 		anyCyclic := false
@@ -229,6 +255,7 @@ func (t *tgt) Evaluate(e runner.Engine) error {
 				depErr = r.Error
 			}
 		}
+		w.unlock()
 		if depErr != nil && !w.sc.Continue {
 			break
 		}
@@ -659,6 +686,10 @@ func main() {
 		}
 		jobs = js
 	}
+	if *fFree > 0 {
+		freePass(r, prop, jobs)
+		return
+	}
 	r.Distribute(len(jobs), func(ji int) {
 		j := jobs[ji]
 		sc := j.sc
@@ -782,4 +813,44 @@ func replay(r *vlib.Run, prop string) {
 	}
 	fmt.Printf("VIOLATION property=%s replay=%s\n", prop, r.ReplayIn)
 	os.Exit(1)
+}
+
+// freePass runs the same harness bodies free-running (no controlled scheduler): the binary is
+// built with -race, so unsynchronised accesses in runner.go - which the cooperative scheduler
+// cannot see - are reported by the race detector. Schedule-independent oracles still apply.
+func freePass(r *vlib.Run, prop string, jobs []job) {
+	seen := map[string]bool{}
+	n := 0
+	for _, j := range jobs {
+		k := j.sc.String()
+		if seen[k] {
+			continue
+		}
+		seen[k] = true
+		for it := 0; it < *fFree; it++ {
+			w := newWorld(j.sc)
+			w.mu = &sync.Mutex{}
+			w.sc = &Scenario{N: j.sc.N, Deps: j.sc.Deps, Kind: j.sc.Kind, Split: j.sc.Split, L: 1 << 20, Continue: j.sc.Continue, Name: j.sc.Name}
+			done := make(chan error, 1)
+			go func() { done <- runner.Run(w, label(0)) }()
+			select {
+			case <-done:
+			case <-time.After(30 * time.Second):
+				fmt.Printf("VIOLATION property=%s replay=-\n  free-running execution of %s did not finish within 30s\n", prop, j.sc)
+				os.Exit(1)
+			}
+			w.mu.Lock()
+			bad := append([]string{}, w.bad...)
+			w.mu.Unlock()
+			for _, b := range bad {
+				if !strings.HasPrefix(b, "limit-exceeded") {
+					fmt.Printf("VIOLATION property=%s replay=-\n  free-running: %s in %s\n", prop, b, j.sc)
+					os.Exit(1)
+				}
+			}
+			n++
+		}
+	}
+	fmt.Printf("%s race pass: %d free-running executions of %d scenarios, no data race reported by the detector\n", prop, n, len(seen))
+	os.Exit(0)
 }
